@@ -21,10 +21,10 @@ SAN = {
 CFLAGS = ["-g", "-O1", "-fno-omit-frame-pointer", "-D_GNU_SOURCE", "-DIVYKIS_VERIF", "-Wall", "-Wno-unused-function", "-Wno-unused-variable"]
 
 WRAPS_VK = ["clock_gettime", "epoll_wait", "epoll_pwait2", "poll", "ppoll", "epoll_ctl", "epoll_create",
-            "timerfd_create", "timerfd_settime", "close", "pipe", "syscall"]
+            "timerfd_create", "timerfd_settime", "close", "pipe", "syscall", "read", "write"]
 
 WRAPS_SCHED = ["pthread_mutex_lock", "pthread_mutex_unlock", "pthread_mutex_destroy", "pthread_spin_lock", "pthread_spin_unlock",
-               "pthread_create", "pthread_join", "read", "write"]
+               "pthread_create", "pthread_join"]
 
 # target -> (harness sources, wrap symbols, sanitizer flavour, extra link flags)
 TARGETS = {
